@@ -531,3 +531,30 @@ def run_refusals(ctx: Ctx, wd) -> None:
             "BranchExit:MismatchedExit", "SetOutputs:ValueError", "Serialize:IncompleteOp")
     if not all(seen[x] for x in need):
         raise MachineryError(f"builder model refusals: classes never exercised: {[x for x in need if not seen[x]]}")
+
+
+def model_hugrs(wd, seed: int, num: int, k: int = 14) -> list:
+    """Module-rooted HUGRs built by replaying random walks of HugrBuilder.tla (TLC simulation, every family enabled): inputs for the
+    document-level properties (export, rendering). Returns [(name, Hugr, hist)]; programs whose replay fails are C01's business and skipped."""
+    import hashlib
+    feats = ("func", "decl", "load", "nested", "cond", "if", "loop", "cfg", "unit", "dom", "insert", "order")
+    out, seen = [], set()
+
+    def sink(ln):
+        if not isinstance(ln, dict) or "doc" not in ln:
+            return
+        key = json.dumps(ln["hist"])
+        if key in seen or len(ln["hist"]) < 4:
+            return
+        seen.add(key)
+        try:
+            h, _ = replay(ln["hist"], "module")
+        except Exception:  # noqa: BLE001
+            return
+        out.append(("model:" + hashlib.sha1(key.encode()).hexdigest()[:10], h, ln["hist"]))
+    res = run_tlc("MC_HugrBuilder", cfg("Module", k, 3, emit=True, view=False, ops=("Not", "H", "Some"), features=feats), wd, workers=8, heap="8g",
+                  line_sink=sink, timeout=3000, simulate=f"num={num}", depth=k + 2, seed=seed + 11)
+    if not res.ok:
+        raise MachineryError(f"HugrBuilder simulation failed: {res.violated} {res.error_text[-300:]}")
+    out.sort(key=lambda x: x[0])
+    return out
